@@ -345,7 +345,7 @@ def run_check(pid: str, tier: str, seed: int, jobs: int = 16) -> int:
             continue
         new_by_sig.setdefault(sig, v)
     reported = 0
-    for sig, v in list(new_by_sig.items())[:3]:
+    for sig, v in list(new_by_sig.items())[: int(getattr(mod, 'MAX_REPORTS', 3))]:
         scn0 = v["scenario"]
         small, sv, sout = minimise(mod, scn0, v["violation"], budget_s=90.0 if tier == "quick" else 240.0)
         if sout.get("harness_error"):
